@@ -493,6 +493,11 @@ func (c *tunnelChannel) recvLoop() {
 				supported = true
 			}
 		}
+		if len(settings.Settings.SupportedProtocolRevisions) == 0 {
+			// Per the protocol definition, an empty list means the server only
+			// supports revision zero (which every client supports).
+			supported = true
+		}
 		if !supported {
 			c.close(fmt.Errorf("protocol error: server support revisions %v, but client supports revisions %v",
 				settings.Settings.SupportedProtocolRevisions, supportedRevisions))
